@@ -200,6 +200,45 @@ def run(tier):
                 pull(b, ob); pull(a, oa)
         if sorted(oa) != list(range(n)) or sorted(ob) != list(range(n)):
             failures.append(dict(kind='history', summary=f'two local-shuffle iterators in flight: {oa} / {ob}', config=dict(kind='local2', n=n, B=B)))
+    # (a'') plain (non-frozen) copies of a reshuffle object - explicit copy(), copy of a copy, a copy taken through a mapped
+    #       stage, the copy the profiling wrapper takes - are objects of their own: with at most ONE iterator in flight per object,
+    #       interleaved with epochs of the original and of the other copies, every iterator yields a permutation
+    ncopyobj = 0
+    for _ in range(1500 if big else 200):
+        common.tick()
+        n = r.randint(0, 6)
+        rs = ld.new(list(range(n))).shuffle(True, rng=np.random.RandomState(r.randint(0, 10 ** 6)))
+        objs = [rs]
+        for _c in range(r.choice([1, 1, 2])):
+            how = r.choice(['copy', 'copy_copy', 'map_copy', 'profile', 'copy_of_other'])
+            try:
+                if how == 'copy': objs.append(rs.copy())
+                elif how == 'copy_copy': objs.append(rs.copy().copy())
+                elif how == 'map_copy': objs.append(rs.map(int).copy())
+                elif how == 'profile': objs.append(ld.core.ProfilingDataset(rs))
+                else: objs.append(objs[-1].copy())
+            except Exception as e:
+                failures.append(dict(kind='history', summary=f'{how} of a reshuffle dataset raised {type(e).__name__}: {e}'[:300], config=dict(kind='copyobj', n=n)))
+        ncopyobj += 1
+        script = [i for i in range(len(objs)) for _ in range(2 * (n + 1))]       # two epochs per object, one iterator in flight per object
+        r.shuffle(script)
+        its, cur, done = {}, {}, []
+        try:
+            for o in script:
+                if o not in its:
+                    its[o] = iter(objs[o]); cur[o] = []
+                try:
+                    cur[o].append(int(next(its[o])))
+                except StopIteration:
+                    done.append((o, cur[o]))
+                    del its[o]
+        except Exception as e:
+            failures.append(dict(kind='history', summary=f'interleaved epochs over a reshuffle dataset and its copies raised {type(e).__name__}: {e}'[:300], config=dict(kind='copyobj', n=n, script=script)))
+            continue
+        bad = [(o, out) for o, out in done if sorted(out) != list(range(n))] + [(o, out) for o, out in cur.items() if o in its and len(set(out)) != len(out)]
+        if bad:
+            failures.append(dict(kind='history', summary=f'reshuffle dataset (n={n}) and {len(objs) - 1} plain copies, one iterator in flight per object, next()-script {script}: '
+                                 f'object {bad[0][0]} yielded {bad[0][1]}, not a permutation of range({n})'[:600], config=dict(kind='copyobj', n=n, script=script)))
     # (a') frozen copies of a reshuffle object in flight (explicit copy(freeze=True), and the implicit ones taken by catch / lazy apply
     #      at the start of every iteration): later epochs of the same object must not disturb them.  Tied to ShuffleFreeze.v:
     #      every draw of the generator is recorded and fed to the model as the oracle of FFreeze / RStart.
@@ -321,7 +360,7 @@ def run(tier):
                     'buffer sizes 1..n+1, value and key iteration, two iterators in flight; one-time shuffle / shuffled tiling / sampling without replacement: permutation predicates; '
                     'every RNG draw is recorded from numpy and fed to the model; non-trivial = n >= 2 (and >= 3 next() calls for reshuffle)',
                reshuffle_histories=len(rcases), interleaved_histories=sum(1 for m in rmeta if len(set(m[1])) > 1),
-               local_shuffle_cases=len(lcases), selection_cases=nsel, frozen_copy_histories=nfrozen,
+               local_shuffle_cases=len(lcases), selection_cases=nsel, frozen_copy_histories=nfrozen, plain_copy_object_histories=ncopyobj,
                traces_validated_against_impl=len(rcases) + len(lcases), disagreements_checked=len(rb) + len(lb),
                samples=[dict(n=rmeta[i][0], script=rmeta[i][1], outs=rmeta[i][2]) for i in (0, len(rmeta) // 2, len(rmeta) - 1)],
                exhaustive=False)
